@@ -104,7 +104,12 @@ func (c *Ctx) Want(caseID string) bool {
 }
 
 func (c *Ctx) loadKnown() {
-	f, err := os.Open(filepath.Join(VerifDir(), "known-findings.txt"))
+	c.loadKnownFile(filepath.Join(VerifDir(), "known-findings.txt"))
+	c.loadKnownFile(filepath.Join(VerifDir(), "known-findings.d", c.Prop+".txt"))
+}
+
+func (c *Ctx) loadKnownFile(path string) {
+	f, err := os.Open(path)
 	if err != nil {
 		return
 	}
